@@ -49,6 +49,10 @@ func main() {
 		os.Exit(2)
 	}
 	stream := os.Args[2]
+	if os.Args[1] == "race" {
+		raceMain(os.Args[2:])
+		return
+	}
 	switch os.Args[1] {
 	case "gen":
 		seed, _ := strconv.ParseUint(os.Args[3], 10, 64)
